@@ -194,6 +194,12 @@ def run(ck):
                     if len(set(numpy.round(wd, 9))) == len(wd):
                         aggd = make(qr, numpy, E, J, D, unit, None, mult)
                         aggd.diagonalize()
+                        # the electronic Hamiltonian asked for after the aggregate diagonalised itself is still the Frenkel matrix
+                        with qr.energy_units("int"):
+                            He_after = numpy.array(aggd.get_electronic_Hamiltonian().data)
+                        if He_after.shape != HH.shape or numpy.abs(He_after - HH).max() > 1e-9 * max(1.0, float(numpy.abs(HH).max())):
+                            ck.fail("electronic-hamiltonian:after-diagonalize", "get_electronic_Hamiltonian() after Aggregate.diagonalize() is not the Frenkel-exciton matrix "
+                                    "of the molecules", inp, float(numpy.abs(He_after - HH).max()) if He_after.shape == HH.shape else "shape")
                         D2got = numpy.array(aggd.D2, dtype=float)
                         DDx = numpy.einsum("ai,abn,bj->ijn", Sd, DD, Sd)
                         D2want = numpy.sum(DDx ** 2, axis=2)
